@@ -443,7 +443,7 @@ def r2_7(cx):
 def r2_8(cx):
     """input-method independence: bytes that came in through encode_anchored / encode_read are backed by their anchor until drained (R5.3, R5.4, R5.7, R17.6)"""
     from . import c05, c17
-    compose(cx, [('R5.3', c05.r5_3), ('R5.4', c05.r5_4), ('R5.7', c05.r5_7), ('R17.6', c17.r17_6)])
+    compose(cx, [('R5.3', c05.r5_3), ('R5.4', c05.r5_4), ('R5.7', c05.r5_7), ('R5.8', c05.r5_8), ('R17.6', c17.r17_6)])
 
 
 RULES = [('R2.1', r2_1), ('R2.2', r2_2), ('R2.3', r2_3), ('R2.4', r2_4), ('R2.5', r2_5), ('R2.6', r2_6), ('R2.7', r2_7), ('R2.8', r2_8)]
